@@ -12,20 +12,20 @@ PARTS = {
     "C07": ("multi", "wrg", "write"),
     "C09": ("wcm", "pfwcm", "multi", "wrg"),
     "C19": ("multi", "wrg", "write"),
-    "C18": ("write",),
+    "C18": ("multi", "write"),
 }
 _C07 = re.compile(r"^write_multi\[append=True.*\]\.(loop\.|closing\.|part\.|partition\.|no_attr_of_None|row_group_appended|out_of_reach)|"
                   r"^write_row_groups|^write\.dispatch\.(append_goes|scheme_and_append|append_requires|append_flag)")
-_C09 = re.compile(r"fmd_restored|opens_fn_wb|^_write_common_metadata|^write_multi\[.*\]\.closing\.|^write_row_groups|"
+_C09 = re.compile(r"part\.name_opened_is_numbered_past|fmd_restored|opens_fn_wb|^_write_common_metadata|^write_multi\[.*\]\.closing\.|^write_row_groups|"
                   r"^write_common_metadata\[.*\]\.(file_is_magic|footer\.(row_groups_are_all|has_no_row_groups|num_rows))|out_of_reach")
-_C19 = re.compile(r"^write_multi\[append=True.*\]\.closing\.(metadata_then|summary_gets)|^write_row_groups(\[multi\]\.(steps_in_order|appends_through)"
+_C19 = re.compile(r"part\.name_opened_is_numbered_past|^write_multi\[append=True.*\]\.closing\.(metadata_then|summary_gets)|^write_row_groups(\[multi\]\.(steps_in_order|appends_through)"
                   r"|\.handle_refreshed)|^write\.dispatch\.(append_goes|append_requires|append_flag)|out_of_reach")
 SELECT = {
     "C02": lambda n: True,
     "C07": lambda n: _C07.search(n) is not None,
     "C09": lambda n: _C09.search(n) is not None and "raises_only_before" not in n,
     "C19": lambda n: _C19.search(n) is not None,
-    "C18": lambda n: re.search(r"^write\.dispatch\.(append_requires|append_flag)|out_of_reach", n) is not None,   # a failed append is reported, nothing touched
+    "C18": lambda n: re.search(r"^write\.dispatch\.(append_requires|append_flag)|part\.name_opened_is_numbered_past|out_of_reach", n) is not None,   # a failed append is reported, nothing touched
 }
 # known findings: (id, regex over the obligation names it covers).  Each region is exact: make_part_file's `[any frame]` obligation is
 # refuted only for len(data) == 0 (its `[frame with rows]` sibling is PROVED), the fmd=None run has no other refutation.  The write_multi
